@@ -369,7 +369,15 @@ func (x *c10) sendCovered() {
 						// the list must have been read inside the region
 						ld := ch.Args[0].Args[0]
 						if li, ok := ld.Val.(ssa.Instruction); ok {
-							if lk, ok2 := p.Events[lockIdx].Instr.(ssa.Instruction); ok2 && !instrAfter(lk, li) {
+							// after, by dominance in one function - or, when the read sits in a helper that is walked through,
+							// by its position on the path (accesses carry the number of events before them)
+							afterOnPath := false
+							for _, ac := range p.Acc {
+								if ac.Instr == li && ac.NEv > lockIdx {
+									afterOnPath = true
+								}
+							}
+							if lk, ok2 := p.Events[lockIdx].Instr.(ssa.Instruction); ok2 && !instrAfter(lk, li) && !afterOnPath {
 								fail("the subscriber list was read before the lock was taken")
 							}
 						}
@@ -480,6 +488,22 @@ func (x *c10) sendCovered() {
 				case addIdx < lockIdx:
 					wfail("wg.Add counts the subscribers before the lock is taken: a Sub/Unsub in between makes the count wrong (Wait returns early, or Done panics / Wait hangs)")
 				default:
+					// one Add(1) per launch, in the same iteration, before the go statement: counts exactly the launches
+					if addArg.IsConst("1") {
+						inner := true
+						enclosing := 0
+						for _, li := range loops {
+							if at, in := p.LoopAt[li.Hdr]; in && at <= i {
+								enclosing++
+								if addIdx < at {
+									inner = false
+								}
+							}
+						}
+						if inner && enclosing > 0 {
+							break
+						}
+					}
 					// k = product of trip counts of the loops enclosing the launch
 					prod := polyConst(1)
 					okLoops := true
@@ -1519,7 +1543,18 @@ func (x *c10) withOnly() {
 						ok, why = false, "a non-matching subscriber is added to the clone"
 					}
 				default:
-					ok, why = false, "subscribers are not compared with the argument"
+					// a nil element is skipped without comparing: the list holds channels made by Sub/SubBuf only
+					// (sub-appends), never nil, so the row is never taken - it must not add anything
+					nilElem := false
+					for _, cd := range p.Conds {
+						r := cd.Rel()
+						if r.B != nil && r.Op == "==" && ((it.isElem(r.A) && r.B.IsNil()) || (it.isElem(r.B) && r.A.IsNil())) {
+							nilElem = true
+						}
+					}
+					if !nilElem || appended {
+						ok, why = false, "subscribers are not compared with the argument"
+					}
 				}
 			}
 			// the clone's list is its own storage: Unsub splices the parent's array in place
